@@ -41,6 +41,9 @@ const (
 	dU dom = "U"   // URL-escaped K
 	dB dom = "BAD" // a raw name was spliced into a pointer
 	dQ dom = "Q"   // query-unescaped: '+' turned into space, not a faithful decoding of a $ref string
+	dD dom = "D"   // a whole pointer run through jsonpointer.Unescape: '/' inside names is now indistinguishable from the separator
+	dM dom = "NN"  // a raw name unescaped once more: "~0"/"~1" inside the name are corrupted
+	dE dom = "E"   // url.PathEscape'd (path-segment escaping): not the escaping of Ref.String() ('?', ';', ',' … differ)
 )
 
 type encEngine struct {
@@ -98,6 +101,11 @@ func (e *encEngine) nameKeyedMap(fi *core.FuncInfo, m ast.Expr) bool {
 }
 
 // fieldDomains: declared domains of this repository's own string fields and map keys.
+// paramDomains: declared domains of string parameters of the module's functions ("pkg.Recv.Name#index").
+var paramDomains = map[string]dom{
+	"analysis.InlineSchemaNamer.Name#0": dK, // the key of the schema to name: split by sortref.KeyParts, recorded in newRefs
+}
+
 var fieldDomains = map[string]dom{
 	"newRef.key":     dK,
 	"newRef.path":    dX, // "#/definitions/"+name with a raw name under KeepNames: neither K nor N (see DESIGN F11)
@@ -238,6 +246,18 @@ func (e *encEngine) dom(fi *core.FuncInfo, x ast.Expr) dom {
 	delete(e.onPath, x)
 	e.memo[x] = d
 	return d
+}
+
+// escapeNeutral: no pointer-, URL- or path-escaper changes any character of s.
+func escapeNeutral(s string) bool {
+	for _, r := range s {
+		switch {
+		case r >= 'a' && r <= 'z', r >= 'A' && r <= 'Z', r >= '0' && r <= '9', r == '/', r == '#', r == '_', r == '-', r == '.':
+		default:
+			return false
+		}
+	}
+	return true
 }
 
 func constDom(s string) dom {
@@ -536,7 +556,33 @@ func (e *encEngine) callDom(fi *core.FuncInfo, call *ast.CallExpr) dom {
 	case "github.com/go-openapi/jsonpointer.Escape":
 		return dT
 	case "github.com/go-openapi/jsonpointer.Unescape":
+		switch arg(0) {
+		case dP, dK, dU:
+			return dD // decoding before splitting: the token boundaries are lost
+		case dN:
+			return dM // decoded twice
+		case dX:
+			// a local with several definitions, every one of them a whole pointer (k = decode(k))
+			if len(call.Args) == 1 {
+				set := e.domSetFresh(fi, call.Args[0])
+				all := len(set) > 0
+				for _, d := range set {
+					if d != dP && d != dK && d != dU {
+						all = false
+					}
+				}
+				if all {
+					return dD
+				}
+			}
+		}
 		return dN
+	case "net/url.PathEscape":
+		switch arg(0) {
+		case dX:
+			return dX
+		}
+		return dE
 	case "path.Join":
 		first := arg(0)
 		bad := false
@@ -544,6 +590,8 @@ func (e *encEngine) callDom(fi *core.FuncInfo, call *ast.CallExpr) dom {
 			switch arg(i) {
 			case dN:
 				bad = true
+			case dE:
+				return dE
 			case dX, dU:
 				return dX
 			case dB:
@@ -560,6 +608,8 @@ func (e *encEngine) callDom(fi *core.FuncInfo, call *ast.CallExpr) dom {
 		return dP
 	case "path.Base":
 		switch arg(0) {
+		case dD:
+			return dB
 		case dP, dK:
 			if e.rawName[core.Unparen(call.Args[0])] {
 				return dX
@@ -637,6 +687,7 @@ func encRules(c *Ctx) {
 	reach := c.P.Reachable(flat)
 	funcs := core.SortedSet(reach)
 	nKeys, nRefs := 0, 0
+	nCmp := map[string]int{}
 	var observations []string
 	for _, fi := range funcs {
 		info := c.info(fi)
@@ -716,7 +767,74 @@ func encRules(c *Ctx) {
 				if x.Op == token.EQL || x.Op == token.NEQ {
 					a, b := e.dom(fi, x.X), e.dom(fi, x.Y)
 					if a != dX && b != dX && a != b && a != dS && b != dS {
-						observations = append(observations, fmt.Sprintf("%s: %s compares %s with %s (%s)", c.P.Pos(x.Pos()), fi.QName(), a, b, exprStr(x)))
+						// a definite mismatch is an error for every name that needs the escaping (a URL-escaped $ref
+						// string never equals the key of the same place when the name holds a space), or compares a
+						// fragment of a pointer with a whole one
+						// a constant made of characters no escaper touches ("#/definitions") is the same string in
+						// every domain: comparing it with a URL-escaped string is exact
+						neutral := false
+						for _, side := range []ast.Expr{x.X, x.Y} {
+							if cs, isC := core.ConstString(info, side); isC && escapeNeutral(cs) {
+								neutral = true
+							}
+						}
+						if neutral {
+							observations = append(observations, fmt.Sprintf("%s: %s compares %s with %s, one side an escape-neutral constant (%s)", c.P.Pos(x.Pos()), fi.QName(), a, b, exprStr(x)))
+						} else {
+							nCmp[fi.QName()]++
+							k := fi.QName() + "/compare"
+							if nCmp[fi.QName()] > 1 {
+								k = fmt.Sprintf("%s#%d", k, nCmp[fi.QName()])
+							}
+							c.S.Violate(prop, "ENC-CMP", k, c.P.Pos(x.Pos()),
+								fmt.Sprintf("compares a string in domain %s (%s) with one in domain %s (%s): the two sides can designate the same thing and differ, or differ in what they designate and be equal", a, domText(a), b, domText(b)))
+						}
+					}
+				}
+				return true
+			}
+			// declared parameter domains of the module's own functions
+			if call, ok := n.(*ast.CallExpr); ok {
+				if callee := c.P.StaticCallee(fi, call); callee != nil {
+					if cf := c.P.Funcs[callee]; cf != nil {
+						for i, a := range call.Args {
+							want, declared := paramDomains[fmt.Sprintf("%s#%d", cf.QName(), i)]
+							if !declared {
+								continue
+							}
+							got := e.dom(fi, a)
+							if got == dX || got == dS || got == want {
+								if got == want {
+									c.S.Hold(prop, "ENC-ARG", fi.QName()+"->"+cf.Name(), c.P.Pos(call.Pos()), "the argument is in the parameter's domain ("+string(want)+")")
+								}
+								continue
+							}
+							c.S.Violate(prop, "ENC-ARG", fi.QName()+"->"+cf.Name(), c.P.Pos(call.Pos()),
+								fmt.Sprintf("%s receives a string in domain %s (%s) where it expects %s (%s): it splits the key into name parts without decoding it, so a name that needs URL escaping reaches the generated definition name still escaped ('my%%20def c') and the $ref built from that name designates another definition or none", cf.Name(), got, domText(got), want, domText(want)))
+						}
+					}
+				}
+			}
+			// identity of references tested by prefix: HasPrefix(ref1.String(), ref2.String())
+			if call, ok := n.(*ast.CallExpr); ok && len(call.Args) == 2 {
+				if cal := c.P.CalleeAny(fi, call); cal != nil && (cal.FullName() == "strings.HasPrefix" || cal.FullName() == "strings.Contains" || cal.FullName() == "strings.HasSuffix") {
+					isRefString := func(x ast.Expr) bool {
+						x = core.Unparen(x)
+						if o := core.ObjOf(info, x); o != nil {
+							if defs := c.P.Locals(fi).Defs[o]; len(defs) == 1 && defs[0].Kind == core.DefAssign {
+								x = core.Unparen(defs[0].Expr)
+							}
+						}
+						cc, ok := x.(*ast.CallExpr)
+						if !ok || len(cc.Args) != 0 {
+							return false
+						}
+						sel, ok := core.Unparen(cc.Fun).(*ast.SelectorExpr)
+						return ok && sel.Sel.Name == "String" && core.IsSpecType(info.TypeOf(sel.X), "Ref")
+					}
+					if isRefString(call.Args[0]) && isRefString(call.Args[1]) {
+						c.S.Violate(prop, "REF-EQ", fi.QName()+"/"+cal.Name(), c.P.Pos(call.Pos()),
+							"two $ref strings are matched with strings."+cal.Name()+" instead of ==: a reference whose pointer merely starts with (contains) the other's — a sibling property named tags next to tag — is taken for the same reference and rewritten to the wrong target")
 					}
 				}
 			}
@@ -902,6 +1020,14 @@ func (e *encEngine) rawNameIn(fi *core.FuncInfo, x ast.Expr, depth int) bool {
 }
 
 func domText(d dom) string {
+	switch d {
+	case dD:
+		return "whole pointer decoded with jsonpointer.Unescape before being split: a '/' inside a name now looks like a separator"
+	case dM:
+		return "raw name unescaped a second time: '~0' / '~1' inside the name are rewritten"
+	case dE:
+		return "url.PathEscape'd string: path-segment escaping differs from the fragment escaping of Ref.String() for '?', ';', ',', '!', '(', ')', '*'"
+	}
 	switch d {
 	case dN:
 		return "raw name"
